@@ -340,7 +340,8 @@ Fixpoint has_dup (l : list Z) : bool :=
 
 (* ---------- operations ---------- *)
 Record mstate := mkMS { ms_heap : mheap; ms_vars : list nat }.
-Definition minit : mstate := mkMS [mempty; mempty; mempty] [0; 1; 2]%nat.
+Definition mplain : mobj := mkMO (Some 0%nat) true [].
+Definition minit : mstate := mkMS [mempty; mplain; mplain; mplain] [1; 2; 3; 0]%nat.
 Definition mvar (s : mstate) (i : nat) : nat := nth i (ms_vars s) 0%nat.
 Definition m_obj (s : mstate) (a : nat) : mobj := nth a (ms_heap s) mempty.
 Definition m_set_obj (s : mstate) (a : nat) (o : mobj) : mstate := mkMS (upd (ms_heap s) a o) (ms_vars s).
@@ -444,12 +445,12 @@ Definition m_obs_obj (h : mheap) (a : nat) : option (list Z) :=
   end.
 
 Definition m_snapshot (s : mstate) : option (list Z) :=
-  opt_concat (map (fun i => m_obs_obj (ms_heap s) (mvar s i)) [0; 1; 2]%nat).
+  opt_concat (map (fun i => m_obs_obj (ms_heap s) (mvar s i)) [0; 1; 2; 3]%nat).
 
 Definition m_snapshot_tag (s : mstate) : Z :=
   let h := ms_heap s in
   if forallb (fun i => zlist_eqb (m_forin (length h) h (mvar s i)) (m_forin_seen (length h) h (mvar s i) []))
-             [0; 1; 2]%nat then 0 else 2.
+             [0; 1; 2; 3]%nat then 0 else 2.
 
 (* observations of a history, the tag of the first open deviation met, and the final state;
    a Go panic (9) would end the script (None) *)
